@@ -51,7 +51,7 @@ struct C05 : public Driver {
         Json res = Json::object(); for (auto& kv : s.resources) res[kv.first] = kv.second; p["resources"] = res;
         Json feats = Json::array(); for (auto& f : s.features) feats.push(f); p["features"] = feats;
         { Json ex = Json::array(); for (auto& e : s.expect) { Json pr = Json::array(); pr.push(e.first); pr.push(e.second); ex.push(pr); } p["expect"] = ex; }
-        Json params = Json::array(); if (useParams) { Json a = Json::object(); a["name"] = "P1"; a["kind"] = "string"; a["value"] = "pv" + std::to_string(g.below(100)); params.push(a); Json b = Json::object(); b["name"] = "P2"; b["kind"] = "number"; b["value"] = std::to_string(g.range(1, 90)); params.push(b); }
+        Json params = Json::array(); if (useParams) { Json a = Json::object(); a["name"] = "P1"; a["kind"] = "string"; a["value"] = "pv" + std::to_string(g.below(100)); params.push(a); Json b = Json::object(); b["name"] = "P2"; b["kind"] = "number"; b["value"] = std::to_string(g.range(-30, 90)); params.push(b); }
         p["params"] = params;
         static const std::vector<std::string> sysIds = { "path", "path", "url" };
         if (selfDoc) { p["selfdoc"] = true; }
